@@ -553,10 +553,18 @@ class Stream(Iterable[Elem]):
         """
 
         class Accumulator:
+            # The running value is state of one iteration: ``Mapper`` asks for a
+            # fresh object each time the stream is iterated, otherwise a second
+            # iteration would continue from where the first one ended.
+            fresh_per_iteration = True
+
             def __init__(self):
                 self._func = func
                 self._initializer = initializer
                 self._kwargs = kwargs
+
+            def fresh(self):
+                return type(self)()
 
             def __call__(self, x):
                 z = self._initializer
@@ -669,6 +677,8 @@ class Mapper(Iterable):
 
     def __iter__(self):
         func = self.func
+        if getattr(func, 'fresh_per_iteration', False):
+            func = func.fresh()
         for v in self._instream:
             yield func(v)
 
